@@ -310,6 +310,20 @@ def run_history(seed, policy, steps, records=None, stop_at=None):
             {'kind': 'create', 'child': 'Library', 'op': 'call', 'args': [{'o': 0}, 'create_library', 'a']},
             {'kind': 'create', 'child': 'Definition', 'op': 'call', 'args': [{'o': 1}, 'create_definition', 'A']},
         ]
+        if policy == 'DEFAULT' and isinstance(seed, int) and seed % 8 == 3:
+            # cross-policy adoption corner: a definition built under DEFAULT whose port and cable carry identifiers
+            # that are equal ignoring case (different scopes!) moves into a library read from an EDIF file
+            def last(kind, pred=lambda o: True):
+                return {'o': [i for i, o in enumerate(W.objs) if irlib.kind(o) == kind and pred(o)][-1]}
+            prologue += [
+                lambda: {'kind': 'parse', 'op': 'parse', 'args': ['EDIF_netlists/namespace.edf.zip']},
+                lambda: {'kind': 'new', 'op': 'new', 'args': ['Definition', 'b']},
+                lambda: {'kind': 'create', 'child': 'Port', 'op': 'call', 'args': [last('Definition'), 'create_port', 'a']},
+                lambda: {'kind': 'create', 'child': 'Cable', 'op': 'call', 'args': [last('Definition'), 'create_cable', 'a']},
+                lambda: {'kind': 'set', 'op': 'setitem', 'args': [last('Port'), 'EDIF.identifier', 'a_b']},
+                lambda: {'kind': 'set', 'op': 'setitem', 'args': [last('Cable'), 'EDIF.identifier', 'A_b']},
+                lambda: {'kind': 'add', 'op': 'call', 'args': [last('Library', lambda o: o.get('.NS') == 'EDIF'), 'add_definition', last('Definition')]},
+            ]
         todo = list(records) if records is not None else None
         step = 0
         while step < steps:
@@ -318,7 +332,7 @@ def run_history(seed, policy, steps, records=None, stop_at=None):
                     break
                 rec = dict(todo.pop(0)); rec.pop('outcome', None)
             else:
-                rec = prologue[step] if step < len(prologue) else gen.next()
+                rec = (prologue[step]() if callable(prologue[step]) else prologue[step]) if step < len(prologue) else gen.next()
             hist.append(rec)
             exp = expected_refusal(W, rec)
             nb = len(W.objs)
@@ -360,16 +374,21 @@ def run_history(seed, policy, steps, records=None, stop_at=None):
                 ck = rec.get('child') or (irlib.kind(W.objs[rec['args'][2]['o']]) if rec['kind'] == 'add' else
                                           irlib.kind(W.objs[rec['args'][0]['o']]) if rec['kind'] in ('set', 'rename', 'unname') else None)
                 porg = scope_origin(origin, target, ck, W.objs[rec['args'][2]['o']] if rec['kind'] == 'add' else None) if target is not None else 'free'
+                plabel = policy
+                if target is not None and target.get('.NS') is not None:
+                    plabel = target.get('.NS')
+                if rec['kind'] == 'add' and W.objs[rec['args'][2]['o']].get('.NS') != plabel:
+                    plabel += '+adopt'
                 if outcome not in ('ok', 'ValueError') and rec['kind'] in ('clone', 'parse'):
                     pass        # a structural failure of clone / parse is C07's / C05's business, not a naming refusal
                 elif outcome not in ('ok', 'ValueError'):
-                    fail('C10.refusal', '%s:%s:%s:%s:%s' % (rec['kind'], key, policy, porg, outcome),
+                    fail('C10.refusal', '%s:%s:%s:%s:%s' % (rec['kind'], key, plabel, porg, outcome),
                          'call ended with %s; the scan-based check expected %s' % (outcome, 'a refusal (%s)' % exp[1] if exp[0] else 'acceptance'))
                 elif refused and not exp[0]:
-                    fail('C10.refusal', '%s:%s:%s:%s:false-refusal' % (rec['kind'], key, policy, porg),
+                    fail('C10.refusal', '%s:%s:%s:%s:false-refusal' % (rec['kind'], key, plabel, porg),
                          'edit refused although no present sibling has the name / identifier and the identifier is legal')
                 elif not refused and exp[0]:
-                    fail('C10.refusal', '%s:%s:%s:%s:missed-refusal' % (rec['kind'], key, policy, porg),
+                    fail('C10.refusal', '%s:%s:%s:%s:missed-refusal' % (rec['kind'], key, plabel, porg),
                          'edit accepted although it creates: %s' % exp[1])
             # (a) and (c) over every scope of every container in the world
             for P in W.objs:
@@ -407,6 +426,10 @@ def run_history(seed, policy, steps, records=None, stop_at=None):
                                 fail('C10.lookup-vs-scan', '%s:%s:%s:%s:raises-%s' % (sc[3], key, pol, porg, type(e).__name__),
                                      'lookup of %r raised %s' % (v[:20], type(e).__name__))
                                 continue
+                            if v == '':
+                                # the query functions read a missing value as "" (see C13): children without the key
+                                # may or may not answer a query for the empty string - not judged
+                                got = [g for g in got if key in g]
                             if len(got) == len(want) and all(any(g is w for w in want) for g in got):
                                 continue
                             missing = [w for w in want if not any(g is w for g in got)]
